@@ -630,10 +630,64 @@ Definition holds_b (sp : space) (g : graph) (o : observed) : bool :=
   reported_consistent_b (ob_multi o) (ob_reported o) (ob_metric_ret o) &&
   (negb (nothing_to_tune sp g) || forallb (params_unchanged_b g) (ob_graphs o)).
 
-(* hypothesis of the theorems that the harness can evaluate on each case: every label the
-   proposer used for a node decodes to a parameter of that node's search space *)
-Definition label_ok (sp : space) (g : graph) (l : string) : bool :=
-  forallb (fun x => x) (mapi (fun i n => negb (prefix (node_prefix i (name n)) l) ||
-                                          in_space sp (name n) (split_last l)) g).
-Definition dict_labels_ok (sp : space) (g : graph) (d : dict) : bool :=
-  forallb (fun kv => label_ok sp g (fst kv)) d.
+(* ---------------------------------------------------------------------------------- *)
+(* executable hypotheses of the theorems (evaluated by the harness on the inferred proposer) *)
+(* ---------------------------------------------------------------------------------- *)
+Definition is_vnone (v : value) : bool := match v with VNone => true | _ => false end.
+
+Section ProposerOk.
+  Variable sp : space.
+  (* pb node_id operation_name parameter_name value *)
+  Variable pb : nat -> string -> string -> value -> bool.
+
+  (* every non-None assignment whose label starts with a node's prefix satisfies pb for that node *)
+  Definition dict_ok_graph_b (g : graph) (d : dict) : bool :=
+    forallb (fun kv => is_vnone (snd kv) ||
+                       forallb (fun x => x)
+                         (mapi (fun i n => negb (prefix (node_prefix i (name n)) (fst kv)) ||
+                                           pb i (name n) (split_last (fst kv)) (snd kv)) g)) d.
+
+  (* every non-None assignment handed to set_arg_node for node i satisfies pb for node i *)
+  Definition dict_ok_node_b (g : graph) (i : nat) (d : dict) : bool :=
+    match nth_error g i with
+    | None => true
+    | Some n => forallb (fun kv => is_vnone (snd kv) || pb i (name n) (split_last (fst kv)) (snd kv)) d
+    end.
+
+  Fixpoint seq_ok_b (g : graph) (order : list nat) (steps : list seq_step) : bool :=
+    match order with
+    | [] => true
+    | i :: order' =>
+        match nth_error g i with
+        | None => true
+        | Some n =>
+            if tunable sp n then
+              match steps with
+              | [] => true
+              | s :: steps' =>
+                  forallb (dict_ok_node_b g i) (st_trials s) && dict_ok_node_b g i (st_best s) &&
+                  seq_ok_b g order' steps'
+              end
+            else seq_ok_b g order' steps
+        end
+    end.
+
+  Definition proposer_ok_b (kind : tuner_kind) (g : graph) (p : proposer) : bool :=
+    match kind with
+    | Sequential inv => seq_ok_b g (nodes_order inv (List.length g)) (p_steps p)
+    | _ => forallb (dict_ok_graph_b g) (p_trials p) &&
+           match p_final p with Some d => dict_ok_graph_b g d | None => true end &&
+           forallb (dict_ok_graph_b g) (p_bests p)
+    end.
+End ProposerOk.
+
+(* the proposer only uses labels of search-space parameters of the node they address *)
+Definition pb_space (sp : space) (i : nat) (nm k : string) (v : value) : bool := in_space sp nm k.
+(* ... and only proposes values inside the declared range / choice set *)
+Definition pb_range (sp : space) (i : nat) (nm k : string) (v : value) : bool :=
+  match space_type sp nm k with Some ty => in_range ty v | None => false end.
+
+Definition labels_in_space_b (sp : space) (kind : tuner_kind) (g : graph) (p : proposer) : bool :=
+  proposer_ok_b sp (pb_space sp) kind g p.
+Definition proposals_in_range_b (sp : space) (kind : tuner_kind) (g : graph) (p : proposer) : bool :=
+  proposer_ok_b sp (pb_range sp) kind g p.
